@@ -167,6 +167,56 @@ CLI_PATHS = '''def cli_paths(binary: bool, nmacros: int, exists: bool, name_kind
         mnames = ["m.yaml", "m.yaml"]
     src = 2 if binary else 1''' + CLI_BODY
 
+CLI_SPELL = '''def cli_spell(binary: bool, sp_p: int, sp_in: int, sp_m: int, nmacros: int, all_matches: bool, only_addr: bool) -> bool:
+    """
+    pre: 0 <= sp_p <= 2 and 0 <= sp_in <= 2 and 0 <= sp_m <= 1 and 0 <= nmacros <= 1
+    post: _
+    """
+    # every legal spelling of an option (short, long, long with '=') hands the SAME value to the library, also for file
+    # names that contain '_', '-', '=' or blanks
+    pn, inn, mn = "my_rule-v1.yaml", "dump_a=b c.s", "my_macros-x.yaml"
+    argv = ["jasm"]
+    if sp_p == 0:
+        argv += ["-p", pn]
+    elif sp_p == 1:
+        argv += ["--pattern", pn]
+    else:
+        argv += ["--pattern=" + pn]
+    short, long_ = ("-b", "--binary") if binary else ("-s", "--assembly")
+    if sp_in == 0:
+        argv += [short, inn]
+    elif sp_in == 1:
+        argv += [long_, inn]
+    else:
+        argv += [long_ + "=" + inn]
+    if all_matches:
+        argv += ["--all-matches"]
+    if only_addr:
+        argv += ["--return_only_address"]
+    if nmacros:
+        argv += (["--macros", mn] if sp_m == 0 else ["--macros=" + mn])
+    _sys.argv = argv
+    _Recorder.last = None
+    _Recorder.fail = False
+    _Recorder.performed = 0
+    code = "returned"
+    try:
+        _main.main()
+    except SystemExit as e:
+        code = e.code
+    except Exception as e:
+        code = "other exception"
+    c = _Recorder.last
+    return (
+        code == "returned" and _Recorder.performed == 1 and c is not None
+        and c.pattern_pathstr == pn and c.input_file == inn
+        and c.input_file_type == (InputFileType.binary if binary else InputFileType.assembly)
+        and c.matching_mode == (MatchingSearchMode.all_finds if all_matches else MatchingSearchMode.first_find)
+        and c.return_only_address == only_addr
+        and c.macros == ([mn] if nmacros else None)
+    )
+'''
+
 PRE_LOG = '''
 import jasm.matched_observers as _mo
 from jasm.matched_observers import MatchedObserver
@@ -213,6 +263,7 @@ def harnesses(t):
           ch.H("c20/cli_fail", CLI_FAIL, timeout=T, prelude=PRE, key="cli_failure", note="an exception raised by the operation propagates out of main()"),
           ch.H("c20/cli_order", CLI_ORDER, timeout=T, prelude=PRE, key="cli_options", note="options given after the input file"),
           ch.H("c20/cli_paths", CLI_PATHS, timeout=T, prelude=PRE, key="cli_paths", note="macro file names of four shapes (plain, @-prefixed, relative with ./ ../, repeated) reach MatchConfig verbatim whether or not any path exists (os.path.exists/isfile answer an arbitrary constant)")]
+    hs.append(ch.H("c20/cli_spell", CLI_SPELL, timeout=T, prelude=PRE, key="cli_options", note="short / long / long=value spelling of -p, -s/-b, --macros chosen symbolically; file names with '_', '-', '=', blank"))
     for lens in [(1, 1, 1), (2, 3, 1)] + ([(3, 3, 3), (4, 1, 2)] if t == "thorough" else []):
         hs.append(ch.H("c20/reporting/" + "".join(map(str, lens)), log_harness(lens), timeout=T, prelude=PRE_LOG, key="reporting", note="0-3 symbolic hits through the real MatchedObserver with a capturing handler"))
     return hs
